@@ -160,6 +160,26 @@ EXT_KINDS = {
 }
 
 
+# the part of NumPy's scalar type hierarchy the backends test against (numpy.timedelta64 IS a signedinteger)
+_NUM = ["numpy.number", "numpy.generic"]
+NUMPY_SCALAR_MRO = {
+    **{f"numpy.int{b}": ["numpy.signedinteger", "numpy.integer", *_NUM] for b in (8, 16, 32, 64)},
+    **{f"numpy.uint{b}": ["numpy.unsignedinteger", "numpy.integer", *_NUM] for b in (8, 16, 32, 64)},
+    **{f"numpy.float{b}": ["numpy.floating", "numpy.inexact", *_NUM] for b in (16, 32, 64)},
+    "numpy.complex128": ["numpy.complexfloating", "numpy.inexact", *_NUM],
+    "numpy.bool_": ["numpy.generic"],
+    "numpy.timedelta64": ["numpy.signedinteger", "numpy.integer", *_NUM],
+    "numpy.datetime64": ["numpy.generic"],
+    "numpy.str_": ["numpy.character", "numpy.flexible", "numpy.generic"],
+    "numpy.object_": ["numpy.generic"],
+}
+EXT_KINDS_EXTRA = {
+    "ak_arraytype": {"awkward.types.ArrayType"}, "ak_listtype": {"awkward.types.ListType"}, "ak_regulartype": {"awkward.types.RegularType"},
+    "ak_optiontype": {"awkward.types.OptionType"}, "ak_recordtype": {"awkward.types.RecordType"}, "ak_numpytype": {"awkward.types.NumpyType"},
+}
+EXT_KINDS.update(EXT_KINDS_EXTRA)
+
+
 class _Return(Exception):
     def __init__(self, value):
         self.value = value
@@ -433,7 +453,17 @@ class Interp:
             else:
                 self.block(st.orelse, env, mod)
         elif isinstance(st, ast.For):
-            it = self.iterate(self.ev(st.iter, env, mod), st.iter)
+            src = self.ev(st.iter, env, mod)
+            if isinstance(src, list):
+                # Python iterates a list by index over the live object: an element removed or inserted by the body shifts what comes next
+                def live(lst=src):
+                    i = 0
+                    while i < len(lst):
+                        yield lst[i]
+                        i += 1
+                it = live()
+            else:
+                it = self.iterate(src, st.iter)
             broke = False
             for item in it:
                 self.assign(st.target, item, env, mod)
@@ -1315,6 +1345,14 @@ def _issubclass(I, args, kwargs, node):
         return I.is_subclass_name(c.name, target)
     if isinstance(c, External) and c.name.startswith("builtins."):
         return I.is_subclass_name(c.name.split(".")[-1], target)
+    if isinstance(c, External) and c.name in NUMPY_SCALAR_MRO:
+        def hit(t):
+            if isinstance(t, tuple):
+                return any(hit(x) for x in t)
+            if isinstance(t, External):
+                return t.name == c.name or t.name in NUMPY_SCALAR_MRO[c.name]
+            return False
+        return hit(target)
     if isinstance(c, Opaque):
         raise Undecided(f"issubclass of opaque class {c!r}")
     if c is None or isinstance(c, (str, int, float)):
